@@ -32,6 +32,7 @@ import OpenFGAVerif.Proofs.CtxSplit
 import OpenFGAVerif.Props.C30
 import OpenFGAVerif.Props.C24
 import OpenFGAVerif.Gen.CombinedReader
+import OpenFGAVerif.Props.ReqClone
 
 namespace OpenFGAVerif.C04
 open OpenFGAVerif.Vocab OpenFGAVerif.CheckV1 OpenFGAVerif.Model OpenFGAVerif.Model.CombinedReader
